@@ -40,17 +40,17 @@ CLAIMS = {
              "Every value of the 8/16-bit types in several spellings, all strings up to 4-5 symbols over {0,1,9,-,+,a,' ',non-ASCII digit} for all 12 integer types and bool, MIN/MAX +-12 neighbourhoods with extra digits/zeros/suffixes for all types (decimal-string arithmetic for 128-bit); whole-string and Parser prefix parsing incl. offsets and error position.",
              "DESIGN.md §3 C12, §9.2", "harness/src/bin/c12.rs, progs/gen_deep.py"),
     "C01": C("generated-input search with post-condition oracles (sub-range / UTF-8 / char-boundary / valid scalar) + the same corpus under Miri as UB observer",
-             "A table of every safe public item that reaches an unsafe block (slice/str slicing, byte-pattern and str functions in all pattern kinds, split/chars/slice iterators, chr, CStr, maybe_uninit, manually_drop, ptr::nonnull, array/collect/from_iter/destructure macros, Parser) is driven with edge index sets (incl. usize::MAX), five element types (incl. ZST and Drop) and constructed UTF-8; every returned slice/str must lie inside its argument, be valid UTF-8 on char boundaries; unexpected panics and harness aborts caused by std's unsafe-precondition checks are violations; a compact corpus of the same calls runs under Miri, and 600+ generated `const` items over 34 call templates are evaluated by rustc's const evaluator (UB = hard error) and compared with their run-time value.",
-             "DESIGN.md §3 C01, §9.2", "harness/src/bin/c01.rs (+ Miri), harness/src/bin/c11.rs --property C01, progs/gen_const.py, progs/gen_closure_exits.py, progs/gen_destructure.py (packed structs under Miri)"),
+             "A table of every safe public item that reaches an unsafe block (slice/str slicing, byte-pattern and str functions in all pattern kinds, split/chars/slice iterators, chr, CStr, maybe_uninit, manually_drop, ptr::nonnull, array/collect/from_iter/destructure macros, Parser) is driven with edge index sets (incl. usize::MAX), five element types (incl. ZST and Drop) and constructed UTF-8; every returned slice/str must lie inside its argument, be valid UTF-8 on char boundaries; unexpected panics and harness aborts caused by std's unsafe-precondition checks are violations; a compact corpus of the same calls runs under Miri, 600+ generated `const` items over 34 call templates (plus a pointer null-test family) are evaluated by rustc's const evaluator (UB = hard error) and compared with their run-time value, and the compile-fail engine contributes the acceptances that would make safe code unsound (Drop types with fields, references, lifetime laundering, unions).",
+             "DESIGN.md §3 C01, §9.2", "harness/src/bin/c01.rs (+ Miri), harness/src/bin/c11.rs --property C01, progs/gen_const.py, progs/gen_closure_exits.py, progs/gen_destructure.py (packed structs under Miri), progs/gen_reject.py (G1, G2, G10, G11)"),
     "C06": C("model-based history testing vs str::split family: exhaustive strings x delimiters, all front/back histories for char delimiters",
              "All strings up to 7 chars over {a,b,é} x all &str delimiters up to 3 chars (incl. empty, overlapping) and char delimiters: split/rsplit/split_terminator/rsplit_terminator pieces compared by address with std step by step, remainder() after every step, rev() forms, and every front/back interleaving of split/rsplit for char delimiters.",
              "DESIGN.md §3 C06, §9.2", "harness/src/bin/c06.rs, progs/gen_deep.py"),
     "C10": C("differential testing of generated programs: typed chain grammar rendered as konst DSL and as the identical std chain, compared on enumerated inputs",
-             "A committed pairwise corpus (every adapter x every consumer) plus seeded random chains (depth <= 5, 14 sources, 13 adapters, 13 consumers, all closure forms, eval!/for_each!, and a const-context collect_const! batch) are compiled against /repo and run on all small inputs; disagreements are attributed to the listed known finding only when the chain has its structural signature and equals the source-reversed alternative model.",
-             "DESIGN.md §3 C10", "progs/gen_chain.py"),
+             "A committed pairwise corpus (every adapter x every consumer) plus seeded random chains (depth <= 5, 14 sources, 13 adapters, 13 consumers, all closure forms, eval!/for_each!, and a const-context collect_const! batch) are compiled against /repo and run on all small inputs; disagreements are attributed to a listed known finding only when the chain has its structural signature and matches that finding's alternative model (source-reversed std chain; std with take(n+1); std over `end..=end` for an exhausted RangeInclusive source; the konst chain with flat_map's parameter renamed; equality apart from the evaluation count of a function-valued argument expression). Closures also use a variable of the caller, fold/rfold also take a tuple accumulator destructured by the closure, function-path arguments are written as counted function-valued expressions.",
+             "DESIGN.md §3 C10, §9.3.1, §9.4", "progs/gen_chain.py"),
     "C11": C("model-based testing of builder histories + generated hostile-closure programs + generated const collect_const! programs differential against std collect + Miri",
-             "map!/map_!/from_fn!/from_fn_! vs std for N in 0..=6 and three element types; all ArrayBuilder op sequences up to depth 6 against a model with a magic-stamped element type; 1100+ generated programs with every kind of early exit inside the closure at every element and every closure-parameter binding form (x, x: T, mut x, ref x, ref mut x with the closure changing its parameter), whose outcome must be compile error / panic / counted loop / left the macro / fully written std-equal array; 500 (thorough 4000) generated const collect_const! items over six item types compared with std collect; thorough reruns the first two under Miri.",
-             "DESIGN.md §3 C11, §9.3 F8", "harness/src/bin/c11.rs, progs/gen_closure_exits.py, progs/gen_collect.py"),
+             "map!/map_!/from_fn!/from_fn_! vs std for N in 0..=6 and three element types; all ArrayBuilder op sequences up to depth 6 against a model with a magic-stamped element type; 1100+ generated programs with every kind of early exit inside the closure at every element and every closure-parameter binding form (x, x: T, mut x, ref x, ref mut x with the closure changing its parameter), whose outcome must be compile error / panic / counted loop / left the macro / fully written std-equal array; 500 (thorough 4000) generated const collect_const! items over six item types compared with std collect; the calling crate shadows the assertion macros and has a trait in scope that gives array references a by-value `len` (defect F16); thorough reruns the first two under Miri.",
+             "DESIGN.md §3 C11, §9.3 F8, §9.3.1 F16", "harness/src/bin/c11.rs, progs/gen_closure_exits.py, progs/gen_collect.py"),
     "C13": C("stateful (operation-history) testing of Parser against its own reported offsets: exhaustive depth 1-3 + seeded proptest histories",
              "Every Parser method with 11 pattern arguments is applied in all sequences of depth 1-2 (rich set) and depth 3 (reduced set) to ~270 originals and three base offsets, plus random histories to depth 12: after every Ok step remainder() must be original[start-base..end-base] on char boundaries nested in the previous range, after every Err the error offset/direction must name the start or end of the parser it was called on, the Display/Debug/panic renderings of the error must carry exactly those values, and user-made errors (ParseError::other_error / with_kind) must round-trip.",
              "DESIGN.md §3 C13/C14, §9.7", "harness/src/bin/c13.rs, harness/fuzz/fuzz_targets/c13_ops.rs, progs/gen_deep.py"),
@@ -61,11 +61,11 @@ CLAIMS = {
              "All ArrayConsumer op sequences (next/next_back/as_slice/swap/clone/drop/assert_is_empty) up to depth 5-6 and ArrayBuilder sequences over a ledger-tracked Drop type, map_!/from_fn_! with a closure panicking at every element, and 800+ generated destructure! programs (braced/tuple structs, tuples to 16, arrays with rest/..; packed, generic, ZST, nested fields; `_` positions) whose in-program ledger must show every id dropped exactly once, `_`-matched ids dropped right after the statement; thorough reruns under Miri.",
              "DESIGN.md §3 C15, §9.2", "harness/src/bin/c11.rs --property C15, progs/gen_destructure.py (+ a Miri batch of packed structs in the quick tier)"),
     "C17": C("generated compile-fail programs with minimally different controls; rustc verdicts as oracle",
-             "Ten guard families (700+ programs, incl. lifetime laundering through destructure! bindings - by-value fields, rest @ .. sub-arrays, nested patterns - which is how defect F9 was found): each invalid invocation must be rejected by rustc and its control (offending element removed) must compile; each program is compiled alone against the konst rlib built from /repo. A failing control is a harness error (exit 2), never a violation.",
-             "DESIGN.md §3 C17, §9.3 F9", "progs/gen_reject.py"),
+             "Eleven guard families (1370+ programs; G3/G4/G8/G9 also inside a calling crate that defines its own compile_error!, G8 with range patterns that begin with a literal and non-literals forwarded as expr / pat / tt fragments, G2 with patterns without fields or elements; G11 (unions) is run for C01; incl. lifetime laundering through destructure! bindings - by-value fields, rest @ .. sub-arrays, nested patterns - which is how defect F9 was found): each invalid invocation must be rejected by rustc and its control (offending element removed) must compile; each program is compiled alone against the konst rlib built from /repo. A failing control is a harness error (exit 2), never a violation.",
+             "DESIGN.md §3 C17, §9.3 F9, §9.3.1 F13-F15, §9.4", "progs/gen_reject.py"),
     "C18": C("differential testing of generated parser_method! programs against a reference using the same literal tokens in expression position",
-             "600+ generated literal sets (all escape kinds, line continuations, raw strings, concat!, related alternatives) for the six forms, each run on every string up to 3 chars over the literals' alphabet + concatenations through two parser constructions; branch, remainder and offsets must equal the reference; literals that rustc accepts but the macro rejects are violations too; branch bodies in every syntactic form (block, bare expression, call, nested macro, trailing comma or not), literals forwarded through caller macro_rules! as literal/expr/tt fragments, and a calling crate that shadows assert!/unreachable! and defines constants named like the macro helper items.",
-             "DESIGN.md §3 C18", "progs/gen_parser_method.py"),
+             "600+ generated literal sets (all escape kinds, line continuations, raw strings, concat!, related alternatives) for the six forms, each run on every string up to 3 chars over the literals' alphabet + concatenations through two parser constructions; branch, remainder and offsets must equal the reference; literals that rustc accepts but the macro rejects are violations too; branch bodies in every syntactic form (block, bare expression, call, nested macro, trailing comma or not), literals forwarded through caller macro_rules! as literal/expr/tt fragments, a calling crate that shadows assert!/unreachable! and defines constants named like the macro helper items, whole `a | b` lists forwarded as one `pat` fragment, `\\u{..}` escapes with `_` separators, and 30% of the match-form programs inside the caller's own loop with branch bodies that continue / break (plain or labelled) / return / fall through, compared with the same loop around the reference (defects F10-F12).",
+             "DESIGN.md §3 C18, §9.3.1", "progs/gen_parser_method.py"),
     "C19": C("differential testing vs std Option/Result/cmp functions with call counters + generated rebind programs with rustc verdicts",
              "Every option::/result:: macro in every argument form on both variants and boundary payloads with fallback call counts, try_!/try_opt! vs `?`, min/max families on keyed values with identity tags; try_rebind!/rebind_if_ok! for every arity 1..=6 and position kind (complete to arity 3) compiled alone (must compile) and compared with a hand-written match on Ok and Err inputs (evaluation counts of the operand included; typed, mut, ref and coercion-site let forms); every macro argument is an effectful expression whose evaluation count (and, outside min/max, order) must equal the std call.",
              "DESIGN.md §3 C19", "harness/src/bin/c19.rs, progs/gen_rebind.py"),
